@@ -236,7 +236,19 @@ fn interval(u: Unit, n: i64) -> TimeTriggerInterval {
 /// roll, from the local wall-clock second `l` of now.  Pure integer arithmetic.
 fn expected_local(z: &Zone, l: i64, u: Unit, n: i64, modulate: bool) -> i64 {
     match u {
-        Unit::Week => return start_of_unit(z, l, u) + n * 7 * 86400,
+        Unit::Week => {
+            let start = start_of_unit(z, l, u);
+            if !modulate {
+                return start + n * 7 * 86400;
+            }
+            // ISO week index (0-based).  Both table years start on a Monday, so inside the table
+            // year the ISO week is ord0 / 7, except that a week whose Thursday falls into the next
+            // year is week 1 (index 0) of that year.
+            assert!((z.jan1_days + 3).rem_euclid(7) == 0, "table year starts on a Monday");
+            let monday_ord0 = start.div_euclid(86400) - z.jan1_days;
+            let week0 = if monday_ord0 + 3 >= z.year_len { 0 } else { monday_ord0 / 7 };
+            return start + (n - week0 % n) * 7 * 86400;
+        }
         Unit::Month => {
             let ord0 = l.div_euclid(86400) - z.jan1_days;
             let m = month0_of(z, ord0) as i64 + n;
@@ -317,7 +329,9 @@ pub fn body_next(z: Zone, u: Unit, modulate: bool, nsel: i64, window: Option<(i6
     let no_change = !crosses(now, next_utc) && offset_at_utc(&z, start_utc) == off_now && !crosses(start_utc, now);
     // the zone model is only valid up to z.hi, except that January 1st of a later year lies in the
     // zone's "a" regime for every table zone (checked with the tz database by the native twin)
-    let in_model = exp_utc < z.hi || u == Unit::Year;
+    // (a fixed-offset zone's model is exact for every instant: used by the modulated Week instance,
+    // whose expected boundary can lie up to n weeks past the year end)
+    let in_model = exp_utc < z.hi || u == Unit::Year || (u == Unit::Week && modulate && z.t1 == z.t2);
     if no_change_exp && in_model && month_ok {
         #[cfg(not(kani))]
         if next_utc + off_now != exp {
@@ -432,6 +446,8 @@ time_common! {
     // calendar units, plain
     #[kani::unwind(14)]
     fn next_utc_week() { body_next(UTC0, Unit::Week, false, 3, None, false, false) }
+    #[kani::unwind(14)]
+    fn next_utc_week_mod() { body_next(UTC0, Unit::Week, true, 3, None, false, false) }
     #[kani::unwind(14)]
     fn next_berlin_week() { body_next(BERLIN, Unit::Week, false, 3, None, false, false) }
     #[kani::unwind(14)]
